@@ -17,11 +17,11 @@
                             out of the "return one" case)
         edit `-` = no edit (class `-`, pred `same`).
 
-  Signature checker: `sigCheck body pubkey scriptCode hashType` = ECDSA (Crypto/Secp256k1, strict DER,
-  SEC1 keys) over the digest `Spec.Sighash.legacySighash scriptCode tx idx hashType` — the REFERENCE
-  signature hash about which Props/C05.lean speaks (C03 proves the library's algorithm equal to it).
-  Of c06's files only `Model.ScriptEval.verifyScript` / `Ctx` / `Err.toExc` and `Spec.Script.Env` /
-  `Flags` are used.
+  Every verification is run in TWO contexts and the verdicts must coincide:
+    `txCtx realHashes ecdsaCheck tx idx`  reference signature hash `Spec.Sighash.legacySighash` (Props/C05 Part 3)
+    `Real.realCtx tx idx`                 `Model.Sighash.rawSignatureHash`, the model of the library's
+                                          RawSignatureHash (Props/C05 Part 4)
+  both with ECDSA = `Real.ecdsaCheck` (Crypto/Secp256k1, strict DER, SEC1 keys) and the executable hashes.
 
     c05.tmpl    kind m keys sigs                the template scripts of Spec/Templates (about which the
                                                 acceptance theorems speak) → `<scriptPubKey>#<scriptSig>`;
@@ -36,6 +36,8 @@ import Driver.TxFmt
 import BtcVerif.Spec.Commit
 import BtcVerif.Spec.Templates
 import BtcVerif.Model.ScriptEval
+import BtcVerif.Model.SpendCtx
+import BtcVerif.Model.ScriptEnvReal
 import BtcVerif.Crypto.Sha256
 import BtcVerif.Crypto.Sha1
 import BtcVerif.Crypto.Ripemd160
@@ -45,23 +47,14 @@ import BtcVerif.Crypto.Der
 namespace Driver.C05
 open BtcVerif Driver BtcVerif.Spec.Script BtcVerif.Spec.Commit
 
-/-- `CECKey.set_pubkey` + `CECKey.verify` on the property's signature domain -/
-def ecdsaCheck (body pubkey digest : Bytes) : Bool :=
-  match Crypto.Secp256k1.decode pubkey, Crypto.Secp256k1.derDecodeStrict body with
-  | some P, some (r, s) => Crypto.Secp256k1.verify P (Crypto.Secp256k1.digestNat digest) r s
-  | _, _ => false
-
-def concreteEnv (tx : Tx) (idx : Nat) : Env :=
-  { hashes := { sha1 := Crypto.sha1, ripemd160 := Crypto.ripemd160, sha256 := Crypto.sha256 }
-    sigCheck := fun body pubkey script ht =>
-      ecdsaCheck body pubkey (Spec.Sighash.legacySighash script tx idx ht).1 }
-
+/-- the context the theorems of Props/C05.lean Part 3 are about (named term, not a copy):
+    reference signature hash + `Real.ecdsaCheck` + the executable hashes -/
 def mkCtx (tx : Tx) (idx : Nat) : Model.ScriptEval.Ctx :=
-  -- (c06, audit round 1: `Ctx` now carries RawSignatureHash's outcome instead of an `Env` plus index guards;
-  --  same behaviour as before for an index ≥ 0: the Spec digest, nothing raised; `(mkCtx tx idx).env = concreteEnv tx idx`)
-  { hashes := (concreteEnv tx idx).hashes
-    sigHash := fun script ht => .ok (Spec.Sighash.legacySighash script tx idx ht).1
-    sigVerify := ecdsaCheck }
+  Model.ScriptEval.txCtx Model.ScriptEval.Real.realHashes Model.ScriptEval.Real.ecdsaCheck tx idx
+
+/-- the context of the library model (Part 4): `Model.Sighash.rawSignatureHash` instead of the
+    reference signature hash -/
+def mkRealCtx (tx : Tx) (idx : Nat) : Model.ScriptEval.Ctx := Model.ScriptEval.Real.realCtx tx (idx : Int)
 
 def parseFlags? (s : String) : Option Flags := do
   let n ← parseNat? s
@@ -69,10 +62,23 @@ def parseFlags? (s : String) : Option Flags := do
   pure { p2sh := n % 2 = 1, nullDummy := n / 2 % 2 = 1, cleanStack := n / 4 % 2 = 1,
          discourageNops := n / 8 % 2 = 1 }
 
-def verify (sig spk : Bytes) (fl : Flags) (tx : Tx) (idx : Nat) : String :=
-  match Model.ScriptEval.verifyScript (mkCtx tx idx) fl sig spk with
+def render (r : Model.ScriptEval.M Unit) : String :=
+  match r with
   | .ok _ => "ok"
   | .error e => "err:" ++ e.toExc.family
+
+/-- verdict in the reference context; `!real=<verdict>` is appended when the context of the library
+    model (Model.Sighash instead of Spec.Sighash) disagrees — Props/C05.lean Part 4 proves it cannot
+    on the templates for transactions in wire range -/
+def verify (sig spk : Bytes) (fl : Flags) (tx : Tx) (idx : Nat) : String :=
+  let a := render (Model.ScriptEval.verifyScript (mkCtx tx idx) fl sig spk)
+  let b := render (Model.ScriptEval.verifyScript (mkRealCtx tx idx) fl sig spk)
+  if a == b then a else a ++ "!real=" ++ b
+
+/-- reference context only (used for the unedited transaction of an edit case: the same transaction
+    is verified in both contexts by the case with edit `-`) -/
+def verifyRef (sig spk : Bytes) (fl : Flags) (tx : Tx) (idx : Nat) : String :=
+  render (Model.ScriptEval.verifyScript (mkCtx tx idx) fl sig spk)
 
 def parseEdit? (s : String) : Option Edit :=
   match s.splitOn ":" with
@@ -109,7 +115,7 @@ def predict (ht idx : Nat) (e : Edit) (t : Tx) : String :=
     else if !r && !r' then "same"                             -- irregular_sighash
     else "differs"
 
-def hash160 (x : Bytes) : Bytes := Crypto.ripemd160 (Crypto.sha256 x)
+def hash160 (x : Bytes) : Bytes := Model.ScriptEval.Real.realHashes.hash160 x
 
 open BtcVerif.Spec.Templates in
 def template (kind : String) (m : Nat) (keys sigs : List Bytes) : Option (Bytes × Bytes) :=
@@ -151,10 +157,12 @@ def handle (op : String) (args : List String) : Option String :=
   | "c05.case", [sig, spk, fl, tx, idx, ht, e] => some <|
       match parseHex? sig, parseHex? spk, parseFlags? fl, TxFmt.parseTx? tx, parseNat? idx, parseNat? ht with
       | some sig, some spk, some fl, some tx, some idx, some ht =>
-          let base := verify sig spk fl tx idx
-          if e == "-" then s!"{base}#{base}#{TxFmt.showTx tx}#-#same" else
+          if e == "-" then
+            let base := verify sig spk fl tx idx
+            s!"{base}#{base}#{TxFmt.showTx tx}#-#same" else
           (match parseEdit? e with
            | some e =>
+               let base := verifyRef sig spk fl tx idx
                let tx' := apply e tx
                s!"{base}#{verify sig spk fl tx' idx}#{TxFmt.showTx tx'}#{className ht idx e}#{predict ht idx e tx}"
            | none => badArgs)
